@@ -367,7 +367,7 @@ let show_refs (r : refs) : string =
 
 let opt_num (s : string) : n option = if s = "_" then None else Some (n_of_decimal s)
 
-(* plan fields: extmods set_head use_iw wt_merge patch_updates new_state new_head old_tree new_tree halt *)
+(* plan fields: extmods set_head use_iw wt_merge patch_updates new_state new_head old_tree new_tree halt ext_early *)
 let plan_of (f : string list) : txplan =
   let a i = nth f i in
   let updates =
@@ -381,7 +381,8 @@ let plan_of (f : string list) : txplan =
   { p_extmods = opt_num (a 0); p_set_head = (a 1 = "1"); p_use_iw = (a 2 = "1");
     p_wt_merge = opt_num (a 3); p_patch_updates = updates; p_new_state = n_of_decimal (a 5);
     p_new_head = n_of_decimal (a 6); p_old_tree = n_of_decimal (a 7);
-    p_new_tree = n_of_decimal (a 8); p_halt = (a 9 = "1") }
+    p_new_tree = n_of_decimal (a 8); p_halt = (a 9 = "1");
+    p_ext_early = (List.length f > 10 && a 10 = "1") }
 
 let point_of = function
   | "stack.loaded" -> PtStackLoaded | "push.before_wt_merge" -> PtPushBeforeWtMerge
